@@ -60,6 +60,21 @@ def build_harness():
         lock.close()
 
 
+def build_harness_dev():
+    """an unoptimised build of the harness (recursion is not turned into loops, frames are large): used by the
+    stack-depth scenarios of C18 / C03 only"""
+    lock = _locked("cargo")
+    try:
+        rc, out = sh(["cargo", "build", "--offline"], HARNESS)
+        return rc == 0, out
+    finally:
+        lock.close()
+
+
+def harness_bin_dev():
+    return os.path.join(HARNESS, "target", "debug", "gbo-harness")
+
+
 def harness_bin(dbg):
     return os.path.join(HARNESS, "target", "dbg" if dbg else "release", "gbo-harness")
 
